@@ -11,6 +11,9 @@ TRUST = ('Trusted: z3 5.1.0; CPython executing the real control flow; real-numbe
 
 CHECKS = {
     # id: (technique, level text, level note, design ref)
+    'C01': ('bounded symbolic execution of the real rate() and of an independent reference in one path (sx engine) + z3 QF_NRA equality per player; sat models replayed on float code',
+            'For every model, listed team shapes and every weak order, limit_sigma on/off, default and uninterpreted gamma: z3 shows on every path that the real rate() returns exactly the terms of the reference written from the paper (Algorithms 1-4 with the documented extensions).',
+            TRUST + ' The reference ref/wenglin.py is trusted to be the published rule.', '6/C01'),
     'C07': ('bounded symbolic execution of the real rate() (sx engine) + z3 QF_NRA per path; sat models replayed on float code',
             'For every model, the listed team shapes and every weak order, z3 shows on every path of the real rate() that the '
             'precision-weighted mu change cannot differ from zero (TM: cannot exceed the tied-pair margin) for any mu, sigma, beta, tau, kappa in the domain.',
